@@ -18,6 +18,7 @@ type RangeLoop struct {
 	n     *node
 	nodes []node
 	ctx   *Ctx
+	kbuf  []byte
 	next  *RangeLoop
 }
 
